@@ -11,6 +11,7 @@ import (
 	"math"
 	"sync"
 	"testing"
+	"testing/iotest"
 
 	"github.com/AdguardTeam/golibs/ioutil"
 	"pgregory.net/rapid"
@@ -388,7 +389,8 @@ type WriteCase struct {
 	Steps []WStep `json:"steps"`
 	// Via: how the caller writes: 0 Write, 1 io.WriteString, 2 io.Copy from a
 	// bytes.Reader, 3 fmt.Fprint (the standard helpers look for optional
-	// interfaces on the destination and would use any shortcut it offers).
+	// interfaces on the destination and would use any shortcut it offers),
+	// 4 io.Copy from a reader without WriteTo, 5 the same in one-byte reads.
 	Via int `json:"via,omitempty"`
 }
 
@@ -429,6 +431,9 @@ func (w *recWriter) Write(b []byte) (int, error) {
 
 func checkWrite(c WriteCase) error {
 	w := &recWriter{steps: c.Steps}
+	if c.Via == 5 {
+		w.steps = nil // a copy in many small writes stops at the first failing one: no failures here
+	}
 	tw := ioutil.NewTruncatedWriter(w, c.Limit)
 	var all []byte
 	k := 0
@@ -454,6 +459,17 @@ func checkWrite(c WriteCase) error {
 			n = int(n64)
 		case 3:
 			n, err = fmt.Fprint(tw, string(b))
+		case 4, 5:
+			// A source without WriteTo: io.Copy uses the destination's
+			// ReadFrom when it has one.  Via 5 delivers the bytes in short
+			// reads.
+			var src io.Reader = struct{ io.Reader }{bytes.NewReader(b)}
+			if c.Via == 5 {
+				src = iotest.OneByteReader(src)
+			}
+			var n64 int64
+			n64, err = io.Copy(tw, src)
+			n = int(n64)
 		default:
 			n, err = tw.Write(b)
 		}
@@ -520,7 +536,7 @@ var writeProp = vp.Register(vp.Prop[WriteCase]{
 		steps := rapid.SliceOfN(rapid.Custom(func(t *rapid.T) WStep {
 			return WStep{Fail: rapid.IntRange(0, 3).Draw(t, "fail") == 0, N: rapid.IntRange(0, 64).Draw(t, "n")}
 		}), 0, 14).Draw(t, "steps")
-		return WriteCase{Limit: limit, Sizes: sizes, Steps: steps, Via: rapid.SampledFrom([]int{0, 0, 0, 1, 2, 3}).Draw(t, "via")}
+		return WriteCase{Limit: limit, Sizes: sizes, Steps: steps, Via: rapid.SampledFrom([]int{0, 0, 0, 1, 2, 3, 4, 4, 5}).Draw(t, "via")}
 	},
 	Check: checkWrite,
 })
